@@ -195,7 +195,7 @@ LEVEL_TEXT = ('Proof over the Gallina model, for every tree, prefix and generato
               'unsuffixed, own-numbered ancestor path is a function of the (name, num) labels along that path, hence stable under any edit that '
               'keeps the path (C08_path_determined_partial, C08_stable_under_edit_partial); the ids of a whole subtree depend on the generator state '
               'only through the keys under its prefix, so an edit elsewhere that leaves those counters alone leaves every id in the subtree '
-              'alone (C08_subtree_ids_local). That unique numbering implies "unsuffixed", the exact '
+              'alone (C08_subtree_ids_local); below every identified element every id extends that element\'s id by "__..." (C08_ids_nest). That unique numbering implies "unsuffixed", the exact '
               'counter scope and the suffix order are decided by the reference-computation oracle and the edit-pair search on the implementation.')
 LEVEL_NOTE = 'Trusted base as C07. Partial: see ASSUMPTIONS in evidence; the exact suffix/counter values are tied by the eid stage only.'
 TECHNIQUE = 'Rocq proof (induction over trees / ancestor paths) + differential run + reference-computation and edit-pair oracles'
